@@ -909,6 +909,20 @@ func propHashToInt(t *rapid.T, I *ecdsaInst) {
 	}
 	if I.inF13Class(h) {
 		if got.Cmp(want) != 0 {
+			// the known finding is pinned exactly: cut to the byte size of the order, then drop BitLen-bitlen(n)
+			// bits (instead of 8*len-bitlen(n)); any OTHER deviation from FIPS inside the class is a new violation
+			cut := h
+			if len(cut) > I.sizeFr {
+				cut = cut[:I.sizeFr]
+			}
+			f13 := new(big.Int).SetBytes(cut)
+			if ex := f13.BitLen() - nb; ex > 0 {
+				f13.Rsh(f13, uint(ex))
+			}
+			if got.Cmp(f13) != 0 {
+				t.Fatalf("%s: HashToInt differs from FIPS 186-4 bits2int in a way that is not finding %s: got %s, FIPS %s, the known deviation would give %s\n%s",
+					test, f13Key, got.Text(16), want.Text(16), f13.Text(16), key)
+			}
 			if rep.Known("C12", f13Key) {
 				rep.StillPresent("C12", f13Key, fmt.Sprintf("%s: HashToInt(%x)=%s, FIPS 186-4 leftmost %d bits=%s", I.name, h, got.Text(16), nb, want.Text(16)))
 				rep.Excluded(test, "C12", f13Key)
